@@ -58,6 +58,13 @@ def _case(draw, tier):
         # the inner graph's own default selection: a subset of its outputs in an order that is NOT their declaration order
         "inner_select": draw(st.permutations(["key", "e", "o"]))[: draw(st.integers(1, 3))] if prob(draw, 0.3) else None,
         "cfg_shape": draw(st.sampled_from(["list", "list", "tuple_list", "dict"])), "rename_cfg": draw(st.booleans()), "map_after_renames": prob(draw, 0.3),
+        # runner.map with a run-time selection and an on_missing policy: each item is judged like a single run with the same options
+        "rt_select": draw(st.lists(st.sampled_from(["key", "e", "o"]), min_size=1, max_size=2, unique=True)) if prob(draw, 0.3) else None,
+        "on_missing": draw(st.sampled_from(["ignore", "error", "error"])),
+        # the mapping node is derived from a mapping node that has already been EXECUTED with another map_over configuration
+        "remap_after_use": prob(draw, 0.25),
+        # the inner graph binds the broadcast input; the outer run supplies another value for it (the run-time value wins)
+        "inner_binds_bc": prob(draw, 0.25),
     }
 
 
@@ -131,15 +138,37 @@ def check_case(case, ev):
 
             r = SyncRunner().run(gs, item, error_handling="continue")
             singles.append(_norm(r))
+        sel_kw = {"select": list(case["rt_select"]), "on_missing": case["on_missing"]} if case.get("rt_select") and not case.get("inner_select") else {}
+        singles_sel = singles
+        if sel_kw:
+            singles_sel = []
+            for c in combos:
+                cs = Ctx(compact=True)
+                _hooks(cs, case)
+                gs = make_graph(cs, gspec, "sync")
+                item = dict(c)
+                if case["mut"]:
+                    item["cfg"] = copy.deepcopy(cfg0)
+                import warnings as _w
+
+                with _w.catch_warnings():
+                    _w.simplefilter("ignore")
+                    singles_sel.append(_norm(SyncRunner().run(gs, item, error_handling="continue", **sel_kw)))
         n_failed = sum(1 for s in singles if s[0] == "failed")
         branches = {tuple(sorted(s[1])) for s in singles if s[0] == "completed"}
         first_fail = next((s[2] for s in singles if s[0] == "failed"), None)
     out_of_order = [False]
+    singles_plain = singles if not unequal else []
+
+    # the inner graph may bind the broadcast input itself; every call below supplies `bc`, and the run-time value wins
+    gspec_used = {**gspec, "bind": {"bc": 7}} if case.get("inner_binds_bc") else gspec
+    if case.get("inner_binds_bc"):
+        labels.add("inner_graph_binds_a_broadcast_input")
 
     def fresh(flavour):
         c = Ctx(compact=True)
         _hooks(c, case)
-        g = make_graph(c, gspec, flavour)
+        g = make_graph(c, gspec_used, flavour)
         v = dict(values)
         if case["mut"]:
             v["cfg"] = copy.deepcopy(cfg0)
@@ -154,7 +183,8 @@ def check_case(case, ev):
             raise Violation("c10.unequal_wrong_error", f"[{tag}] unequal zip lengths raised {type(e).__name__}: {e}") from None
         raise Violation("c10.unequal_accepted", f"[{tag}] unequal zip lengths {J(lists)} were accepted")
 
-    def check_results(tag, res, eh, v):
+    def check_results(tag, res, eh, v, singles=None):
+        singles = singles if singles is not None else singles_plain
         got = [_norm(r) for r in res]
         if len(got) != len(combos):
             raise Violation("c10.count", f"[{tag}] {len(got)} results for {len(combos)} combinations; lists={J(lists)} order={order}", what="count")
@@ -171,6 +201,12 @@ def check_case(case, ev):
         flavour = "async" if runner_kind == "sched" else "sync"
         c, g, v = fresh(flavour)
         kw = dict(map_over=order, map_mode=mode, clone=clone, error_handling=eh)
+        use_sel = (not unequal) and bool(sel_kw)
+        if use_sel:
+            kw.update(sel_kw)
+            tag += f" select={sel_kw['select']} on_missing={sel_kw['on_missing']}"
+        my_singles = singles_sel if use_sel else (singles if not unequal else [])
+        my_first_fail = next((s_[2] for s_ in my_singles if s_[0] == "failed"), None)
         import asyncio
 
         def call():
@@ -199,16 +235,18 @@ def check_case(case, ev):
         except Injected as e:
             if eh != "raise":
                 raise Violation("c10.raised_in_continue", f"[{tag}] continue mode raised {e}") from None
-            if first_fail is None or _err_id(e) != first_fail:
-                raise Violation("c10.wrong_error", f"[{tag}] raise mode surfaced {_err_id(e)}, the lowest-index failing item is {first_fail}", what="not_first") from None
+            if my_first_fail is None or _err_id(e) != my_first_fail:
+                raise Violation("c10.wrong_error", f"[{tag}] raise mode surfaced {_err_id(e)}, the lowest-index failing item is {my_first_fail}", what="not_first") from None
             return
         except Violation:
             raise
         except Exception as e:  # noqa: BLE001
+            if eh == "raise" and my_first_fail is not None and _err_id(e) == my_first_fail:
+                return  # (a selected output the first failing item lacks, on_missing='error': that item's ValueError propagates)
             raise Violation("c10.map_raised", f"[{tag}] map raised {type(e).__name__}: {str(e)[:200]}", error=type(e).__name__) from None
-        if eh == "raise" and n_failed:
-            raise Violation("c10.raise_not_raised", f"[{tag}] {n_failed} items fail but raise mode returned normally")
-        check_results(tag, res, eh, v)
+        if eh == "raise" and any(s_[0] == "failed" for s_ in my_singles):
+            raise Violation("c10.raise_not_raised", f"[{tag}] {sum(1 for s_ in my_singles if s_[0] == 'failed')} items fail but raise mode returned normally", selection=use_sel)
+        check_results(tag, res, eh, v, my_singles)
 
     def node_call(tag, runner_kind, eh):
         flavour = "async" if runner_kind == "sched" else "sync"
@@ -240,7 +278,11 @@ def check_case(case, ev):
             m = {**m, "params": [inmap.get(p_, p_) for p_ in order], "before_renames": False}
             if isinstance(m.get("clone"), list):
                 m["clone"] = [inmap.get(p_, p_) for p_ in m["clone"]]
-        wrapper = {"k": "graph", "name": "inner", "graph": gspec, "map": m, "renames": renames}
+        if case.get("remap_after_use") and m.get("before_renames") and len(order) >= 1 and not unequal:
+            wv = {k2: (val[:2] if k2 == order[0] and isinstance(val, list) else (val[0] if isinstance(val, list) and val else (0 if isinstance(val, list) else val))) for k2, val in values.items()}
+            m = {**m, "warm": {"params": [order[0]], "values": wv}}
+            labels.add("map_over_reconfigured_after_the_node_ran")
+        wrapper = {"k": "graph", "name": "inner", "graph": gspec_used, "map": m, "renames": renames}
         ospec = {"nodes": [wrapper]}
         if case["deep"]:
             ospec = {"nodes": [{"k": "graph", "name": "mid", "graph": {"nodes": [wrapper], "name": "mid"}}]}
